@@ -1214,3 +1214,40 @@ MUTANTS += [
  dict(name='seed-C19-g2-unmarshal-helper', prop='C19', patch='seeded/C19-g2-unmarshal-helper-passes-compressed-as-checked/patch.diff', expect='R-WRAP'),
  dict(name='seed-C20-g2prepared-mutable-read-cursor', prop='C20', patch='seeded/C20-g2prepared-mutable-read-cursor/patch.diff', expect='R-EFFECT/const'),
 ]
+
+# ---- benign-refactor round 1: behaviour-preserving rewrites by fresh sub-agents of the code each property is anchored in; the checks of
+# the property (and of those that read the same routines) must stay silent (or, for the pointer-walk precompute, decline)
+MUTANTS += [
+ dict(name='benign-r1-C01', prop='C01', benign=True, expect='', patch='selftest/fixes/benign-r1-C01.patch'),
+ dict(name='benign-r1-C01-on-C08', prop='C08', benign=True, expect='', patch='selftest/fixes/benign-r1-C01.patch'),
+ dict(name='benign-r1-C05', prop='C05', benign=True, expect='', patch='selftest/fixes/benign-r1-C05.patch'),
+ dict(name='benign-r1-C06', prop='C06', benign=True, expect='', patch='selftest/fixes/benign-r1-C06.patch'),
+ dict(name='benign-r1-C08', prop='C08', benign=True, expect='', patch='selftest/fixes/benign-r1-C08.patch'),
+ dict(name='benign-r1-C08-on-C01', prop='C01', benign=True, expect='', patch='selftest/fixes/benign-r1-C08.patch'),
+ dict(name='benign-r1-C09', prop='C09', benign=True, expect='', patch='selftest/fixes/benign-r1-C09.patch'),
+ dict(name='benign-r1-C09-on-C10', prop='C10', benign=True, expect='', patch='selftest/fixes/benign-r1-C09.patch'),
+ dict(name='benign-r1-C11', prop='C11', benign=True, expect='', patch='selftest/fixes/benign-r1-C11.patch'),
+ dict(name='benign-r1-C11-on-C12', prop='C12', benign=True, expect='', patch='selftest/fixes/benign-r1-C11.patch'),
+ dict(name='benign-r1-C12', prop='C12', benign='noverdict', expect='', patch='selftest/fixes/benign-r1-C12.patch'),
+ dict(name='benign-r1-C12-on-C11', prop='C11', benign='noverdict', expect='', patch='selftest/fixes/benign-r1-C12.patch'),
+ dict(name='benign-r1-C14', prop='C14', benign=True, expect='', patch='selftest/fixes/benign-r1-C14.patch'),
+ dict(name='benign-r1-C14-on-C11', prop='C11', benign=True, expect='', patch='selftest/fixes/benign-r1-C14.patch'),
+ dict(name='benign-r1-C15', prop='C15', benign=True, expect='', patch='selftest/fixes/benign-r1-C15.patch'),
+ dict(name='benign-r1-C18', prop='C18', benign=True, expect='', patch='selftest/fixes/benign-r1-C18.patch'),
+ dict(name='benign-r1-C18-on-C04', prop='C04', benign=True, expect='', patch='selftest/fixes/benign-r1-C18.patch'),
+ # the same rewrites with one defect put back: the rules must still see through the new shape
+ dict(name='benign-r1-C09-padding-short', prop='C09', expect='padding', patch='selftest/fixes/benign-r1-C09.patch',
+      edits=[('src/bls12_381/curve.cpp', 'sizeof(this->data) - 1)) {', 'sizeof(this->data) - 2)) {')]),
+ dict(name='benign-r1-C09-padding-from-2', prop='C09', expect='padding', patch='selftest/fixes/benign-r1-C09.patch',
+      edits=[('src/bls12_381/curve.cpp', 'all_bytes_zero(&this->data[1], sizeof(this->data) - 1)', 'all_bytes_zero(&this->data[2], sizeof(this->data) - 2)')]),
+ dict(name='benign-r1-C09-stray-mask', prop='C09', expect='flag-residue', patch='selftest/fixes/benign-r1-C09.patch',
+      edits=[('src/bls12_381/curve.cpp', 'bool stray_flags = ((this->data[0] & ~(encoding_flags_compressed | encoding_flags_infinity)) != 0);',
+              'bool stray_flags = ((this->data[0] & ~(encoding_flags_compressed | encoding_flags_infinity | 0x20)) != 0);')]),
+ dict(name='benign-r1-C06-sign-flip', prop='C06', expect='digits|', patch='selftest/fixes/benign-r1-C06.patch',
+      edits=[('src/bls12_381/curve_fast_multiply.cpp', 'if (digit_neg != c0_neg)', 'if (digit_neg == c0_neg)')]),
+ dict(name='benign-r1-C06-index-flip', prop='C06', expect='digits|', patch='selftest/fixes/benign-r1-C06.patch',
+      edits=[('src/bls12_381/curve_fast_multiply.cpp', 'const G1& entry = wt.table[(digit_neg ? -digit : digit) >> 1];', 'const G1& entry = wt.table[(digit_neg ? digit : -digit) >> 1];')]),
+ dict(name='benign-r1-C18-fq6-tables-swapped', prop='C04', expect='VIOLATION property=C04', patch='selftest/fixes/benign-r1-C18.patch',
+      edits=[('src/bls12_381/fq6.cpp', 'this->c1.multiply(this->c1, coeff_c1);', 'this->c1.multiply(this->c1, coeff_c2);'),
+             ('src/bls12_381/fq6.cpp', 'this->c2.multiply(this->c2, coeff_c2);', 'this->c2.multiply(this->c2, coeff_c1);')]),
+]
